@@ -145,8 +145,9 @@ def handle (s : S) (i : Nat) (j : Json) : S × List Json :=
           if op == "bond" && ok && (fBool? j "pairFirst").getD false then
             some { user := user, a := amt, r := pv.rate, tv := pv.tv, supply := pv.supply, minted := iMinted }
           else none
-        let last' := if mres == "ok" && (op == "borrow" || op == "repay" || op == "accrue") then now else s.last
-        let s' : S := { s with model := mst, last := last', pair := pair',
+        let last' := if ok && (op == "borrow" || op == "repay" || op == "accrue") then now else s.last
+        -- after a disagreement continue from the implementation's state, so that every `diff` is a fresh one
+        let s' : S := { s with model := (if mst != iSt then iSt else mst), last := last', pair := pair',
                                prev := { tv := iSt.tv, supply := iSt.supply, cash := iSt.cash, rate := iRate } }
         let vs := diffs ++ viols
         (s', if vs.isEmpty then [verdictOk i] else vs)
